@@ -20,6 +20,8 @@ EXPLANATION = (
     'Not decided: mutations performed inside numpy/astropy/matplotlib by calls the table believes pure.')
 EXPLANATION_ADDED = (" (R6) no shared default-argument object is stored in an instance un-copied (the store is followed into the descriptor's __set__).")
 EXPLANATION += EXPLANATION_ADDED
+EXPLANATION_ADDED2 = (" (R7) objects that live across the iterations of a reader's loop reach the per-line results only through copy.deepcopy: a may-hold-a-reference dataflow (sources: the names bound before the main loop of the DS9 raw parser and changed inside it, followed into the module functions they are handed to; propagators: assignment, .copy(), dict(), .items(), repository classes such as RegionMeta(x); sanitizer: copy.deepcopy) must find no return of such an object from a helper whose value leaves towards a result, and no attribute store `result.attr = <object made before the loop>` in a function that builds several regions per call.")
+EXPLANATION += EXPLANATION_ADDED2
 TRUSTED = ['known-mutator table of container methods; alias-returning externals table (np.asarray, slicing, '
            'dict.get/items/values, getattr...); every other external call returns a fresh value and mutates nothing',
            'ndarray <<= astropy unit rebinds (numpy declines, unit.__rlshift__ builds a new Quantity)']
@@ -569,6 +571,213 @@ def r6(ctx):
     ctx.need(n >= 8, 'mutable default-argument objects', f'only {n} found')
 
 
+# ---------------------------------------------------------------------------------------------------------------
+# R7: objects that live across the iterations of a reader's loop must not become part of two results un-copied
+# ---------------------------------------------------------------------------------------------------------------
+FRESH_CALLS = ('copy.deepcopy', 'deepcopy')
+SHALLOW_METHODS = ('copy', 'items', 'values', 'get', 'pop', 'setdefault')
+SHALLOW_FUNCS = ('dict', 'list', 'tuple', 'set', 'sorted', 'reversed', 'zip', 'enumerate', 'iter', 'next')
+ABSORBING = ('update', 'append', 'extend', 'insert', 'add', 'setdefault', '__setitem__')
+
+
+class _Shared:
+    """may-hold-a-reference analysis of one function: which local names may hold (or contain) an object out of the set
+    `tainted` — the mutable objects that are shared between the results the caller builds.  copy.deepcopy() is the only
+    way out; dict(x), x.copy(), RegionMeta(x) and friends copy the container and keep the members; calls of anything else
+    are taken to build fresh objects."""
+
+    def __init__(self, m, fi, tainted):
+        self.m, self.fi, self.t = m, fi, set(tainted)
+        self.returns = []       # return statements handing out a shared object
+        self.stores = []        # (statement, target text) attribute stores of a shared object
+
+    def expr(self, e):
+        if e is None:
+            return False
+        if isinstance(e, ast.Name):
+            return e.id in self.t
+        if isinstance(e, (ast.Attribute, ast.Subscript, ast.Starred)):
+            return ast.unparse(e) in self.t or self.expr(e.value)
+        if isinstance(e, ast.IfExp):
+            return self.expr(e.body) or self.expr(e.orelse)
+        if isinstance(e, (ast.Tuple, ast.List, ast.Set)):
+            return any(self.expr(x) for x in e.elts)
+        if isinstance(e, ast.Dict):
+            return any(self.expr(x) for x in e.values if x is not None)
+        if isinstance(e, ast.BoolOp):
+            return any(self.expr(x) for x in e.values)
+        if isinstance(e, ast.NamedExpr):
+            return self.expr(e.value)
+        if isinstance(e, ast.Call):
+            nm = dotted(e.func) or ''
+            if nm in FRESH_CALLS or nm.split('.')[-1] == 'deepcopy':
+                return False
+            if isinstance(e.func, ast.Attribute) and e.func.attr in SHALLOW_METHODS and self.expr(e.func.value):
+                return True
+            args = list(e.args) + [k.value for k in e.keywords]
+            if nm in SHALLOW_FUNCS and any(self.expr(a) for a in args):
+                return True
+            if any(self.expr(a) for a in args):
+                # a class of the repository (RegionMeta(meta), _RegionData(...)) keeps what it is given
+                r = self.m.resolve_name(self.fi.module, nm) if nm and '.' not in nm else (None,)
+                if r and r[0] == 'class':
+                    return True
+            return False
+        return False
+
+    def block(self, body):
+        for st in body:
+            if isinstance(st, (ast.Assign, ast.AnnAssign, ast.AugAssign)):
+                val = st.value
+                tgts = st.targets if isinstance(st, ast.Assign) else [st.target]
+                tv = self.expr(val)
+                for t in tgts:
+                    for x in ([t] if not isinstance(t, (ast.Tuple, ast.List)) else t.elts):
+                        if isinstance(x, ast.Name):
+                            if tv:
+                                self.t.add(x.id)
+                        elif isinstance(x, ast.Subscript) and tv:
+                            if isinstance(x.value, ast.Name):
+                                self.t.add(x.value.id)
+                        elif isinstance(x, ast.Attribute) and tv:
+                            self.stores.append((st, ast.unparse(x)))
+            elif isinstance(st, ast.Expr) and isinstance(st.value, ast.Call):
+                c = st.value
+                if isinstance(c.func, ast.Attribute) and c.func.attr in ABSORBING and isinstance(c.func.value, ast.Name) \
+                        and any(self.expr(a) for a in list(c.args) + [k.value for k in c.keywords]):
+                    self.t.add(c.func.value.id)
+            elif isinstance(st, ast.Return):
+                if self.expr(st.value):
+                    self.returns.append(st)
+            elif isinstance(st, (ast.For, ast.AsyncFor)):
+                if self.expr(st.iter):
+                    for x in ast.walk(st.target):
+                        if isinstance(x, ast.Name):
+                            self.t.add(x.id)
+                for _ in range(2):
+                    self.block(st.body)
+                self.block(st.orelse)
+            elif isinstance(st, (ast.If, ast.While)):
+                self.block(st.body)
+                self.block(st.orelse)
+            elif isinstance(st, ast.With):
+                self.block(st.body)
+            elif isinstance(st, ast.Try):
+                self.block(st.body)
+                for h in st.handlers:
+                    self.block(h.body)
+                self.block(st.orelse)
+                self.block(st.finalbody)
+
+
+def _loop_carried(fn):
+    """(the main loop of a reader function, names bound before it that are re-bound or changed in place inside it)"""
+    loops = [st for st in fn.body if isinstance(st, ast.For)]
+    if not loops:
+        return None, set()
+    loop = max(loops, key=lambda l_: len(list(ast.walk(l_))))
+    before = set()
+    for st in fn.body:
+        if st is loop:
+            break
+        if isinstance(st, ast.Assign):
+            for t in st.targets:
+                if isinstance(t, ast.Name):
+                    before.add(t.id)
+    inside = set()
+    for n in ast.walk(loop):
+        if isinstance(n, ast.Assign):
+            for t in n.targets:
+                if isinstance(t, ast.Name):
+                    inside.add(t.id)
+        if isinstance(n, ast.Call) and isinstance(n.func, ast.Attribute) and n.func.attr in ABSORBING + ('pop', 'clear') \
+                and isinstance(n.func.value, ast.Name):
+            inside.add(n.func.value.id)
+    return loop, before & inside
+
+
+def shared_between_results(ctx, entries):
+    """For each reader entry (module, function): the objects that survive an iteration of its main loop (a dictionary of
+    global defaults updated line by line) must reach the per-iteration results only through copy.deepcopy — followed into
+    the repository functions the loop hands them to; and a function that builds several results in a loop must not give
+    them one and the same mutable object."""
+    m = ctx.model
+    n = 0
+    for modname, fname in entries:
+        fi = m.func(modname, fname)
+        loop, carried = _loop_carried(fi.node)
+        ctx.need(loop is not None, f'{fname}', 'no loop found in the reader')
+        # (a) objects carried across iterations, handed to helpers inside the loop
+        # a call whose value goes back into a carried name (composite_meta = _end_composite(composite_meta, ...)) updates the
+        # state; only values that leave towards a per-line result matter
+        back = {id(st.value) for st in ast.walk(loop) if isinstance(st, ast.Assign) and isinstance(st.value, ast.Call)
+                and all(isinstance(t, ast.Name) and t.id in carried for t in st.targets)}
+        for c in [x for x in ast.walk(loop) if isinstance(x, ast.Call) and id(x) not in back]:
+            for g in m.resolve_call(fi, c) or ():
+                if g.cls is not None or g.module != fi.module:
+                    continue
+                params = [a.arg for a in g.node.args.args]
+                tainted = {p_ for p_, a in zip(params, c.args) if isinstance(a, ast.Name) and a.id in carried}
+                tainted |= {k.arg for k in c.keywords if isinstance(k.value, ast.Name) and k.value.id in carried}
+                if not tainted:
+                    continue
+                n += 1
+                an = _Shared(m, g, tainted)
+                an.block(g.node.body)
+                if an.returns:
+                    ctx.bad(f'{g.name}', 'shared-between-results',
+                            f'{g.name} is called once per line by {fname} with {sorted(tainted)}, which live across the lines, '
+                            f'and returns an object holding their members (`{norm(an.returns[0])[:70]}`) without a deep copy: '
+                            'list-valued entries (tag) are one object in every region read from the text, so changing one '
+                            'region\'s metadata changes the others', g.loc(an.returns[0]))
+                else:
+                    ctx.ok(f'{g.name}', f'{sorted(tainted)} reach the result only through copy.deepcopy')
+    # (b) a builder of several results per call
+    for modname, fname in entries:
+        mi = m.modules[modname]
+        for g in mi.functions.values():
+            loops = [st for st in ast.walk(g.node) if isinstance(st, ast.For)]
+            for lp in loops:
+                made = {t.id for st in ast.walk(lp) if isinstance(st, ast.Assign) and isinstance(st.value, ast.Call)
+                        for t in st.targets if isinstance(t, ast.Name)}
+                stores = [st for st in ast.walk(lp) if isinstance(st, ast.Assign) and any(
+                    isinstance(t, ast.Attribute) and isinstance(t.value, ast.Name) and t.value.id in made for t in st.targets)]
+                if not stores:
+                    continue
+                bound_in = {t.id for st in ast.walk(lp) if isinstance(st, (ast.Assign, ast.For))
+                            for t in ast.walk(st.targets[0] if isinstance(st, ast.Assign) else st.target) if isinstance(t, ast.Name)}
+                outer = {x.id for st in stores for x in ast.walk(st.value) if isinstance(x, ast.Name)} - bound_in
+                outer |= {ast.unparse(x) for st in stores for x in ast.walk(st.value)
+                          if isinstance(x, ast.Attribute) and isinstance(x.value, ast.Name) and x.value.id not in bound_in
+                          and x.value.id in [a.arg for a in g.node.args.args]}
+                # names of plain functions / classes / modules are not data
+                local = {a.arg for a in g.node.args.args} | {
+                    x.id for st in ast.walk(g.node) if isinstance(st, (ast.Assign, ast.For, ast.AnnAssign))
+                    for tg in (st.targets if isinstance(st, ast.Assign) else [st.target]) for x in ast.walk(tg)
+                    if isinstance(x, ast.Name)}
+                outer = {o for o in outer if o.split('.')[0] in local}
+                an = _Shared(m, g, outer)
+                an.block(lp.body)
+                n += 1
+                bad = [s_ for s_ in an.stores if any(isinstance(t, ast.Attribute) and isinstance(t.value, ast.Name)
+                                                     and t.value.id in made for t in (s_[0].targets if isinstance(s_[0], ast.Assign) else []))]
+                if bad:
+                    ctx.bad(f'{g.name}', 'shared-between-results',
+                            f'{g.name} builds one result per iteration and stores `{norm(bad[0][0])[:70]}`: the value is (or holds the '
+                            'members of) one object made before the loop, so the regions made from one line share it', g.loc(bad[0][0]))
+                else:
+                    ctx.ok(f'{g.name}', 'per-result attributes are deep copies of what was made before the loop')
+    return n
+
+
+def r7(ctx):
+    """regions read from one text are independent objects (parsing keeps no object alive that two results share): in the
+    DS9 reader the dictionary of global/composite metadata lives across the lines, and a multi-radius line makes several
+    regions from one parsed metadata dictionary — both must be deep-copied on the way into a region."""
+    n = shared_between_results(ctx, [('regions.io.ds9.read', '_parse_raw_data')])
+    ctx.need(n >= 2, 'ds9 reader', f'only {n} hand-over sites of loop-carried metadata found')
+
+
 RULES = [
     RuleDef('R1', 'no write through a reference rooted in a parameter of a public entry', r1, 150),
     RuleDef('R2', 'no function writes module/class-level objects; registry only via decorator', r2, 15),
@@ -576,4 +785,5 @@ RULES = [
     RuleDef('R4', 'shared iterators consumed only when stateless / unreachable', r4, 2),
     RuleDef('R5', 'no order-revealing use of a set', r5, 1),
     RuleDef('R6', 'no shared default-argument object becomes part of an instance un-copied', r6, 8),
+    RuleDef('R7', 'regions read from one DS9 text share no mutable metadata object (loop-carried state reaches results only through deepcopy)', r7, 2),
 ]
